@@ -117,7 +117,12 @@ func (p *puppet) log(format string, args ...interface{}) {
 func newPuppet(x *Ctx, dir string, seed int64, fo shim.FSMOpts) (*puppet, error) {
 	m := mon.New()
 	m.Keep = true
-	c := cluster.New(m, dir, seed, cluster.Options{ET: 3 * time.Millisecond, HB: 2 * time.Millisecond, Lease: time.Millisecond, FSM: fo, SampleEvery: time.Hour})
+	et := time.Duration(x.P.Int("etms", 3)) * time.Millisecond
+	hb := et / 4
+	if hb < 2*time.Millisecond {
+		hb = 2 * time.Millisecond
+	}
+	c := cluster.New(m, dir, seed, cluster.Options{ET: et, HB: hb, Lease: time.Millisecond, FSM: fo, SampleEvery: time.Hour})
 	p := &puppet{x: x, M: m, C: c, eps: map[string]*simnet.Endpoint{}, snapshots: fo.SnapThreshold > 0}
 	m.Emit(mon.Event{Kind: mon.KPuppet})
 	cfg := &mon.Cfg{Index: 1, Members: map[string]bool{"p": true, "A": true, "B": true}}
@@ -712,4 +717,174 @@ func init() {
 		runPuppetCases(x, x.P.Int("cases", 30), shim.FSMOpts{Seed: x.Seed, SnapThreshold: x.P.Int("snapthr", 0)}, puppetRV)
 	}
 	Registry["puppet.is"] = func(x *Ctx) { runPuppetCases(x, x.P.Int("cases", 30), shim.FSMOpts{Seed: x.Seed}, puppetIS) }
+}
+
+// ---------------------------------------------------------------- C16 / C17: a node that has just answered its leader does not vote
+
+// puppetSticky: the node answers a request of a legitimate leader (same or newer term; heartbeat that matches,
+// heartbeat whose previous entry is missing or conflicts, entries, a whole snapshot) and is asked for its
+// (pre)vote by the other scripted node right afterwards - far inside the election timeout (etms is large in
+// this family). The leader counts every such answer as contact with a voter (quorum, lease), so the voter must
+// neither grant nor adopt the outsider's term. Elapsed wall time between the answer and the vote request is
+// measured; a probe that took longer than half the election timeout is not judged.
+func puppetSticky(p *puppet, r *rand.Rand) {
+	w := p.w
+	ft, f := p.buildFollower(r)
+	if p.snapshots {
+		time.Sleep(3 * time.Millisecond)
+	}
+	et := p.C.Opts.ET
+	nprobe := 3 + r.Intn(3)
+	for i := 0; i < nprobe; i++ {
+		s := p.sample()
+		if s == nil {
+			return
+		}
+		cur := s.Term
+		term := cur
+		if r.Intn(4) == 0 {
+			term = cur + 1
+		}
+		if term == 0 {
+			term = 1
+		}
+		var contact bool
+		kind := r.Intn(6)
+		if i == 0 && p.C.Opts.FSM.RestoreUs > 0 && r.Intn(3) > 0 {
+			kind = 5
+		}
+		if kind != 5 && r.Intn(2) == 0 {
+			// the node's previous contact with a leader is older than the election timeout: only the answer it is about to give counts
+			time.Sleep(et + et/4)
+			p.x.Cover("sticky-previous-contact-expired")
+			if s = p.sample(); s == nil {
+				return
+			}
+			if s.Term > term {
+				term = s.Term
+			}
+		}
+		switch {
+		case kind == 5 && term >= 1 && term <= 3 && p.C.Opts.FSM.RestoreUs > 0 && i == 0:
+			// the node is in the middle of restoring a snapshot (Restore outlasts the election timeout) when the heartbeat arrives
+			t := int(term)
+			sidx := w.C[t]
+			if sidx <= f || t < ft {
+				continue // the label must lie beyond the node's log, or the handler would wait for entries to be applied first
+			}
+			cnt, chn, lst := w.canon(t, sidx)
+			data := shim.EncodeSnap(cnt, chn, lst, 0)
+			p.M.Emit(mon.Event{Kind: mon.KWorldSnap, Node: leaderOf(term), Idx: uint64(sidx), Term: w.termAt(t, sidx), Num: int64(len(data)), Hash: mon.HashBytes(data), Cnt: cnt, Chn: chn})
+			ev := mon.Event{Kind: mon.KWorldCommit}
+			for k := 1; k <= sidx; k++ {
+				ev.Ents = append(ev.Ents, p.C.Net.EntryOf(w.ents(t, k, k)[0]))
+			}
+			p.M.Emit(ev)
+			p.M.Emit(mon.Event{Kind: mon.KNote, Str: "concurrent-requests"})
+			req := raft.InstallSnapshotRequest{LeaderID: leaderOf(term), Term: term, LastIncludedIndex: uint64(sidx), LastIncludedTerm: w.termAt(t, sidx), Configuration: p.cfgBytes, Bytes: data, Offset: 0, Done: true}
+			p.log("IS(term %d, label %d/%d, done) in the background; heartbeat while Restore runs", term, sidx, req.LastIncludedTerm)
+			done := make(chan struct{})
+			go func() {
+				defer close(done)
+				p.eps[req.LeaderID].SendInstallSnapshot("p", req)
+			}()
+			defer func() { <-done }()
+			time.Sleep(et + et/4)
+			hb := raft.AppendEntriesRequest{LeaderID: leaderOf(term), Term: term, PrevLogIndex: uint64(sidx), PrevLogTerm: w.termAt(t, sidx)}
+			resp, err := p.eps[leaderOf(term)].SendAppendEntries("p", hb)
+			p.log("heartbeat(term %d, prev %d/%d) -> success=%v term=%d err=%v", term, sidx, hb.PrevLogTerm, resp.Success, resp.Term, err)
+			contact = err == nil && resp.Term == term
+			ft, f = t, 0
+			if contact && !resp.Success {
+				p.x.Cover("sticky-contact:heartbeat-rejected-while-restoring")
+			} else {
+				p.x.Cover("sticky-contact:heartbeat-around-restore")
+			}
+		case kind == 5:
+			continue
+		case kind == 4 && p.C.Opts.FSM.RestoreUs > 0:
+			continue
+		case kind == 4 && term >= 1 && term <= 3:
+			t, _ := p.installFrom(r, int(term))
+			ft, f = t, 0 // the log position is no longer tracked in this case
+			contact = true
+			p.x.Cover("sticky-contact:snapshot")
+		default:
+			prev := f
+			what := "matching"
+			switch kind {
+			case 1: // previous entry beyond the node's log
+				if f > 0 && len(w.L[ft]) > f {
+					prev = f + 1 + r.Intn(len(w.L[ft])-f)
+					what = "missing-previous"
+				}
+			case 2: // previous entry with another term
+				for _, t2 := range []int{1, 2, 3} {
+					if f > 0 && t2 != ft && len(w.L[t2]) >= f && w.termAt(t2, f) != w.termAt(ft, f) {
+						what = "conflicting-previous"
+						req := raft.AppendEntriesRequest{LeaderID: leaderOf(term), Term: term, PrevLogIndex: uint64(f), PrevLogTerm: w.termAt(t2, f)}
+						p.log("heartbeat(term %d, prev %d/%d)", term, f, req.PrevLogTerm)
+						resp, err := p.eps[leaderOf(term)].SendAppendEntries("p", req)
+						p.log("  -> success=%v term=%d err=%v", resp.Success, resp.Term, err)
+						contact = err == nil && resp.Term == term
+						break
+					}
+				}
+			}
+			if what != "conflicting-previous" {
+				if f == 0 {
+					prev = 0
+				}
+				req := raft.AppendEntriesRequest{LeaderID: leaderOf(term), Term: term, PrevLogIndex: uint64(prev), PrevLogTerm: w.termAt(ft, prev)}
+				p.log("heartbeat(term %d, prev %d/%d)", term, prev, req.PrevLogTerm)
+				resp, err := p.eps[leaderOf(term)].SendAppendEntries("p", req)
+				p.log("  -> success=%v term=%d err=%v", resp.Success, resp.Term, err)
+				contact = err == nil && resp.Term == term
+				if contact && !resp.Success {
+					what += "-rejected"
+				}
+			}
+			p.x.Cover("sticky-contact:" + what)
+		}
+		t0 := time.Now()
+		before := p.sample()
+		if before == nil {
+			return
+		}
+		cand := "A"
+		if leaderOf(term) == "A" {
+			cand = "B"
+		}
+		prevote := r.Intn(2) == 0
+		rvTerm := before.Term + 1 + uint64(r.Intn(2))
+		resp, err := p.rv(cand, rvTerm, 1000, rvTerm, prevote)
+		elapsed := time.Since(t0)
+		after := p.sample()
+		if err != nil || after == nil || !contact || elapsed > et/2 {
+			p.x.count("sticky.probes_not_judged", 1)
+			continue
+		}
+		p.x.count("sticky.probes", 1)
+		if resp.VoteGranted {
+			p.M.AddViolation(mon.Violation{Props: []string{"C16", "C17"}, Sig: "vote-right-after-leader-contact", Node: "p", Msg: fmt.Sprintf("node p answered leader %s of term %d and %d us later granted %s its %s for term %d (election timeout %v): the leader counts that answer as contact with a voter", leaderOf(term), term, elapsed.Microseconds(), cand, map[bool]string{true: "prevote", false: "vote"}[prevote], rvTerm, et)})
+		} else if after.Term > before.Term {
+			p.M.AddViolation(mon.Violation{Props: []string{"C16"}, Sig: "term-raised-right-after-leader-contact", Node: "p", Msg: fmt.Sprintf("node p answered leader %s of term %d and %d us later moved to term %d on a vote request of %s (election timeout %v)", leaderOf(term), term, elapsed.Microseconds(), after.Term, cand, et)})
+		}
+	}
+	// not vacuous: once the election timeout has passed without contact the same kind of request is granted
+	time.Sleep(et + et/4)
+	if s := p.sample(); s != nil {
+		if resp, err := p.rv("A", s.Term+2, 1000, s.Term+2, false); err == nil && resp.VoteGranted {
+			p.x.count("sticky.granted_after_timeout", 1)
+		}
+	}
+}
+
+func init() {
+	Registry["puppet.sticky"] = func(x *Ctx) {
+		if _, ok := x.P["etms"]; !ok {
+			x.P["etms"] = "100"
+		}
+		runPuppetCases(x, x.P.Int("cases", 6), shim.FSMOpts{Seed: x.Seed, SnapThreshold: x.P.Int("snapthr", 0), RestoreUs: x.P.Int("restoreus", 0)}, puppetSticky)
+	}
 }
